@@ -3,7 +3,8 @@ import SSV.Proofs.UdpSession
 import SSV.Proofs.UdpClient
 /-
 C04 — Authenticated UDP packets are delivered at most once; fresh ones never refused.
-Property theorems only (helper lemmas: SSV/Proofs/SWF*.lean, SSV/Proofs/UdpSession.lean).
+Property theorems only (helper lemmas: SSV/Proofs/SWFBits.lean, SWF.lean, SWFRun.lean, UdpSession.lean, UdpClient.lean;
+specification side: SSV/Model/SWFSpec.lean).
 
 Part 1: the sliding-window filter (ss2022/slidingwindow.go, model SSV/Model/SWF.lean) refines the
 specification "list of delivered ids + newest" (SSV/Model/SWFSpec.lean) for EVERY window size
